@@ -486,14 +486,24 @@ class Repository:
 
         return config
 
+    def _check_adapter_type(self, adapter_type, expected_type):
+        if not issubclass(adapter_type, expected_type):
+            raise exceptions.ReplicatError(
+                f'Adapter {adapter_type.__name__!r} is not a '
+                f'{expected_type.__name__}'
+            )
+
     def _instantiate_config(self, config):
         chunker_type, chunker_args = adapters.from_config(**config['chunking'])
+        self._check_adapter_type(chunker_type, adapters.ChunkerAdapter)
         hasher_type, hasher_args = adapters.from_config(**config['hashing'])
+        self._check_adapter_type(hasher_type, adapters.HashAdapter)
 
         if (encryption_config := config.get('encryption')) is not None:
             cipher_type, cipher_args = adapters.from_config(
                 **encryption_config['cipher']
             )
+            self._check_adapter_type(cipher_type, adapters.CipherAdapter)
             cipher = cipher_type(**cipher_args)
         else:
             cipher = None
